@@ -13,6 +13,8 @@ struct ClassicFam {
   static SK make(int cfg) { return SK(static_cast<uint16_t>(cfg)); }
   static std::string cfg_text(int cfg) { return "k=" + std::to_string(cfg); }
   static bool allow_rt() { return false; }
+  static bool has_exact_region() { return false; }
+  static bool exact_claim(const SK&, double) { return false; }
   static SK roundtrip(const SK& s) { return s; }
   // equal k inside an exhaustive scenario: a merge of different k draws its stride offset from
   // random_utils::rand, which is not a coin and is covered by the sampled part
